@@ -48,8 +48,14 @@ def seeded_table():
         m = json.load(open(mp))
         ran = m.get("what_i_ran", {})
         ts = ran.get("test_suite_with_patch", {})
-        checks = "; ".join(f"{p}: {c['verdict']}" + (f" ({c['first_lines'][0].strip()[:70]})" if c.get("first_lines") else "")
-                           for p, c in sorted(m.get("checks", {}).items()))
+        prim = m.get("breaks_property")
+        parts = []
+        for p, c in sorted(m.get("checks", {}).items(), key=lambda t: (t[0] != prim, t[0])):
+            txt = f"{p}: {c['verdict']}" + (f" ({c['first_lines'][0].strip()[:70]})" if c.get("first_lines") else "")
+            if p != prim:
+                txt = "also run, other property: " + txt
+            parts.append(txt)
+        checks = "; ".join(parts)
         hist = m.get("history", "")
         rows.append(f"| `{m['seed_id']}` | {m.get('breaks_property')} | {m.get('needs_to_manifest', '')} | "
                     f"{'pass' if ts.get('exit') == 0 else 'FAIL' if ts else 'n/a'} | "
